@@ -5,6 +5,9 @@ from vf.ref import bip39_ref as R
 from vf.runner import Acc, filler
 
 PROPERTY = "C10"
+# E6: seq_ops() indices of the operations that are interrupted at every line (vf/seqexplore.interrupted); probes = the whole alphabet
+INTERRUPT_X = [1, 3, 8]
+INTERRUPT_PROBES = None
 CONCUR_FILES = ('bits/bips/bip39/__init__.py',)
 # (thread a, thread b), warm-up: indices into seq_ops() - the ordinary single-case checks run concurrently (vf/concur.py)
 CONCUR_SCEN = [((0, 3), ()), ((1, 1), (0,)), ((3, 4), (1,)), ((8, 9), ()), ((0, 3, 1), ())]   # the last one: three threads
@@ -21,6 +24,7 @@ ASSUMPTIONS = ["vf/ref/bip39_ref.py (bit-string formulation, hand-rolled PBKDF2)
 OBLIGATIONS = {
     "concurrent_calls": "interleavings of two concurrent calls (single-case checks in two threads, cold and after warm-up calls)",
     "long_history": "operations executed in one long history (>= 1000 distinct operations, forward / forward / reverse)",
+    "interrupted_calls": "interruption points explored (an earlier call cut short by an asynchronous exception, then ordinary calls)",
     "history_sequences": "operation sequences (non-initial process states) explored",
     "invalid_length_refused": "an entropy length other than 16/20/24/28/32 offered", "last_word_all_2048": "all 2048 last words tried on a phrase",
     "accepted_alternative_last_word": "a different last word that is also valid (other entropy bits) was offered",
@@ -176,6 +180,9 @@ def run_case(kind, case):
     if kind == "concurcase":
         from vf import concur
         return concur.replay_cases(run_case, PROPERTY, case, CONCUR_FILES)
+    if kind == "interrupted":
+        from vf import seqexplore
+        return seqexplore.replay_interrupted(run_case, case)
     if kind == "seq":
         from vf import seqexplore
         return seqexplore.replay(run_case, case)
@@ -225,6 +232,8 @@ def jobs(tier, seed):
     js += seq_jobs(3, weight=3)
     from vf.runner import long_jobs
     js += long_jobs()
+    from vf.runner import interrupt_jobs
+    js += interrupt_jobs(len(INTERRUPT_X))
     from vf.runner import concur_jobs
     js += concur_jobs(len(CONCUR_SCEN) - (1 if tier == "quick" else 0))
     return js
@@ -239,6 +248,11 @@ def run_job(job):
     if job["part"] == "longhist":
         from vf.runner import run_long_job, default_long_ops
         return run_long_job(job, default_long_ops(seq_ops, job), run_case)
+    if job["part"] == "interrupted":
+        from vf.runner import run_interrupt_job
+        ops = [o for o in seq_ops(dict(job, part="interrupted", shard=[0, 1]))]
+        probes = ops if INTERRUPT_PROBES is None else [ops[i] for i in INTERRUPT_PROBES]
+        return run_interrupt_job(job, [ops[i] for i in INTERRUPT_X], probes, run_case, CONCUR_FILES)
     if job["part"] == "seq":
         from vf.runner import run_seq_job
         return run_seq_job(job, seq_ops(job), run_case, depth=3 if job["tier"] == "quick" else 4)
